@@ -126,4 +126,144 @@ theorem layout {c : Conv} {tl : List (Nat × List MEv)} {vol : Option String} {b
     rw [← hHdef, ← hseq', hml] at hds
     exact hds
 
+/-! ### the exported `seq ` consists of bytes: header and macro streams -/
+
+theorem app_bytes {out l : List Nat} (hb : ∀ x ∈ out, x < 256) (hl : ∀ x ∈ l, x < 256) : ∀ x ∈ out ++ l, x < 256 := by
+  intro x hx; rcases List.mem_append.mp hx with h | h; exact hb x h; exact hl x h
+
+theorem macroLong_bytes : ∀ (fuel : Nat) (out : List Nat) (cmd next arg : Nat), (∀ x ∈ out, x < 256) → cmd < 256 → next < 256 →
+    (∀ x ∈ (macroLong fuel out cmd next arg).1, x < 256) ∧ (macroLong fuel out cmd next arg).2.1 < 256
+  | 0, out, cmd, next, arg, hb, hc, hn => ⟨hb, hc⟩
+  | fuel + 1, out, cmd, next, arg, hb, hc, hn => by
+    unfold macroLong
+    split
+    · exact macroLong_bytes fuel _ next next _ (app_bytes hb (by intro x hx; simp at hx; rcases hx with rfl | rfl <;> omega)) hn hn
+    · exact ⟨hb, hc⟩
+
+theorem set_bytes {l : List Nat} (hb : ∀ x ∈ l, x < 256) (i v : Nat) (hv : v < 256) : ∀ x ∈ l.set i v, x < 256 := by
+  intro x hx
+  rcases List.mem_or_eq_of_mem_set hx with h | h
+  · exact hb x h
+  · rw [h]; exact hv
+
+theorem macroEv_bytes {e e' : MEnc} {ev : MEv} (hb : ∀ x ∈ e.out, x < 256) (h : macroEv e ev = .ok e') : ∀ x ∈ e'.out, x < 256 := by
+  unfold macroEv at h
+  simp only at h
+  by_cases c1 : ev.type = mds_REST ∧ ev.arg ≠ 0
+  · simp only [if_pos c1] at h
+    simp only [Except.ok.injEq] at h; subst h
+    obtain ⟨m1, m2⟩ := macroLong_bytes 300 e.out 0x81 0x81 (ev.arg - 1) hb (by decide) (by decide)
+    exact app_bytes m1 (by intro x hx; simp only [List.mem_cons, List.mem_nil_iff, or_false] at hx; rcases hx with rfl | rfl; exact m2; omega)
+  by_cases c2 : ev.type < mds_SLR ∧ ev.arg ≠ 0
+  · simp only [if_neg c1, if_pos c2] at h
+    simp only [Except.ok.injEq] at h; subst h
+    obtain ⟨m1, m2⟩ := macroLong_bytes 300 e.out 0x82 0x81 (ev.arg - 1) hb (by decide) (by decide)
+    exact app_bytes m1 (by intro x hx; simp only [List.mem_cons, List.mem_nil_iff, or_false] at hx; rcases hx with rfl | rfl; exact m2; omega)
+  by_cases c3 : macroIgnored.contains ev.type = true
+  · simp only [if_neg c1, if_neg c2, if_pos c3] at h; simp only [Except.ok.injEq] at h; subst h; exact hb
+  by_cases c4 : ev.type = mds_SEGNO
+  · simp only [if_neg c1, if_neg c2, if_neg c3, if_pos c4] at h; simp only [Except.ok.injEq] at h; subst h; exact hb
+  by_cases c5 : ev.type = mds_CARRY
+  · simp only [if_neg c1, if_neg c2, if_neg c3, if_neg c4, if_pos c5] at h; simp only [Except.ok.injEq] at h; subst h; exact app_bytes hb (by intro x hx; simp only [List.mem_cons, List.mem_nil_iff, or_false] at hx; rcases hx with rfl | rfl <;> first | omega | (split <;> omega))
+  by_cases c6 : ev.type = mds_FINISH
+  · simp only [if_neg c1, if_neg c2, if_neg c3, if_neg c4, if_neg c5, if_pos c6] at h; simp only [Except.ok.injEq] at h; subst h; exact app_bytes hb (by intro x hx; simp only [List.mem_cons, List.mem_nil_iff, or_false] at hx; rcases hx with rfl | rfl <;> first | omega | (split <;> omega))
+  by_cases c7 : ev.type = mds_VOL
+  · simp only [if_neg c1, if_neg c2, if_neg c3, if_neg c4, if_neg c5, if_neg c6, if_pos c7] at h; simp only [Except.ok.injEq] at h; subst h; exact app_bytes hb (by intro x hx; simp only [List.mem_cons, List.mem_nil_iff, or_false] at hx; rcases hx with rfl | rfl <;> first | omega | (split <;> omega))
+  by_cases c8 : ev.type = mds_VOLM
+  · simp only [if_neg c1, if_neg c2, if_neg c3, if_neg c4, if_neg c5, if_neg c6, if_neg c7, if_pos c8] at h; simp only [Except.ok.injEq] at h; subst h; exact app_bytes hb (by intro x hx; simp only [List.mem_cons, List.mem_nil_iff, or_false] at hx; rcases hx with rfl | rfl <;> first | omega | (split <;> omega))
+  by_cases c9 : ev.type = mds_TRS
+  · simp only [if_neg c1, if_neg c2, if_neg c3, if_neg c4, if_neg c5, if_neg c6, if_neg c7, if_neg c8, if_pos c9] at h; simp only [Except.ok.injEq] at h; subst h; exact app_bytes hb (by intro x hx; simp only [List.mem_cons, List.mem_nil_iff, or_false] at hx; rcases hx with rfl | rfl <;> first | omega | (split <;> omega))
+  by_cases c10 : ev.type = mds_TRSM
+  · simp only [if_neg c1, if_neg c2, if_neg c3, if_neg c4, if_neg c5, if_neg c6, if_neg c7, if_neg c8, if_neg c9, if_pos c10] at h; simp only [Except.ok.injEq] at h; subst h; exact app_bytes hb (by intro x hx; simp only [List.mem_cons, List.mem_nil_iff, or_false] at hx; rcases hx with rfl | rfl <;> first | omega | (split <;> omega))
+  by_cases c11 : ev.type = mds_DTN
+  · simp only [if_neg c1, if_neg c2, if_neg c3, if_neg c4, if_neg c5, if_neg c6, if_neg c7, if_neg c8, if_neg c9, if_neg c10, if_pos c11] at h; simp only [Except.ok.injEq] at h; subst h; exact app_bytes hb (by intro x hx; simp only [List.mem_cons, List.mem_nil_iff, or_false] at hx; rcases hx with rfl | rfl <;> first | omega | (split <;> omega))
+  by_cases c12 : ev.type = mds_PTA
+  · simp only [if_neg c1, if_neg c2, if_neg c3, if_neg c4, if_neg c5, if_neg c6, if_neg c7, if_neg c8, if_neg c9, if_neg c10, if_neg c11, if_pos c12] at h; simp only [Except.ok.injEq] at h; subst h; exact app_bytes hb (by intro x hx; simp only [List.mem_cons, List.mem_nil_iff, or_false] at hx; rcases hx with rfl | rfl <;> first | omega | (split <;> omega))
+  by_cases c13 : ev.type = mds_PAN
+  · simp only [if_neg c1, if_neg c2, if_neg c3, if_neg c4, if_neg c5, if_neg c6, if_neg c7, if_neg c8, if_neg c9, if_neg c10, if_neg c11, if_neg c12, if_pos c13] at h; simp only [Except.ok.injEq] at h; subst h; exact app_bytes hb (by intro x hx; simp only [List.mem_cons, List.mem_nil_iff, or_false] at hx; rcases hx with rfl | rfl <;> first | omega | (split <;> omega))
+  by_cases c14 : ev.type = mds_LFO
+  · simp only [if_neg c1, if_neg c2, if_neg c3, if_neg c4, if_neg c5, if_neg c6, if_neg c7, if_neg c8, if_neg c9, if_neg c10, if_neg c11, if_neg c12, if_neg c13, if_pos c14] at h; simp only [Except.ok.injEq] at h; subst h; exact app_bytes hb (by intro x hx; simp only [List.mem_cons, List.mem_nil_iff, or_false] at hx; rcases hx with rfl | rfl <;> first | omega | (split <;> omega))
+  by_cases c15 : ev.type = mds_FMCREG
+  · simp only [if_neg c1, if_neg c2, if_neg c3, if_neg c4, if_neg c5, if_neg c6, if_neg c7, if_neg c8, if_neg c9, if_neg c10, if_neg c11, if_neg c12, if_neg c13, if_neg c14, if_pos c15] at h; simp only [Except.ok.injEq] at h; subst h; exact app_bytes hb (by intro x hx; simp only [List.mem_cons, List.mem_nil_iff, or_false] at hx; rcases hx with rfl | rfl <;> first | omega | (split <;> omega))
+  by_cases c16 : ev.type = mds_FMTL
+  · simp only [if_neg c1, if_neg c2, if_neg c3, if_neg c4, if_neg c5, if_neg c6, if_neg c7, if_neg c8, if_neg c9, if_neg c10, if_neg c11, if_neg c12, if_neg c13, if_neg c14, if_neg c15, if_pos c16] at h; simp only [Except.ok.injEq] at h; subst h; exact app_bytes hb (by intro x hx; simp only [List.mem_cons, List.mem_nil_iff, or_false] at hx; rcases hx with rfl | rfl <;> first | omega | (split <;> omega))
+  by_cases c17 : ev.type = mds_FMTLM
+  · simp only [if_neg c1, if_neg c2, if_neg c3, if_neg c4, if_neg c5, if_neg c6, if_neg c7, if_neg c8, if_neg c9, if_neg c10, if_neg c11, if_neg c12, if_neg c13, if_neg c14, if_neg c15, if_neg c16, if_pos c17] at h; simp only [Except.ok.injEq] at h; subst h; exact app_bytes hb (by intro x hx; simp only [List.mem_cons, List.mem_nil_iff, or_false] at hx; rcases hx with rfl | rfl <;> first | omega | (split <;> omega))
+  by_cases c18 : ev.type = mds_JUMP
+  · simp only [if_neg c1, if_neg c2, if_neg c3, if_neg c4, if_neg c5, if_neg c6, if_neg c7, if_neg c8, if_neg c9, if_neg c10, if_neg c11, if_neg c12, if_neg c13, if_neg c14, if_neg c15, if_neg c16, if_neg c17, if_pos c18] at h; simp only [Except.ok.injEq] at h; subst h; exact app_bytes hb (by intro x hx; simp only [List.mem_cons, List.mem_nil_iff, or_false] at hx; rcases hx with rfl | rfl <;> first | omega | (split <;> omega))
+  by_cases c19 : ev.type = mds_LP
+  · simp only [if_neg c1, if_neg c2, if_neg c3, if_neg c4, if_neg c5, if_neg c6, if_neg c7, if_neg c8, if_neg c9, if_neg c10, if_neg c11, if_neg c12, if_neg c13, if_neg c14, if_neg c15, if_neg c16, if_neg c17, if_neg c18, if_pos c19] at h; simp only [Except.ok.injEq] at h; subst h; exact app_bytes hb (by intro x hx; simp only [List.mem_cons, List.mem_nil_iff, or_false] at hx; rcases hx with rfl | rfl <;> first | omega | (split <;> omega))
+  by_cases c20 : ev.type = mds_LPB
+  · simp only [if_neg c1, if_neg c2, if_neg c3, if_neg c4, if_neg c5, if_neg c6, if_neg c7, if_neg c8, if_neg c9, if_neg c10, if_neg c11, if_neg c12, if_neg c13, if_neg c14, if_neg c15, if_neg c16, if_neg c17, if_neg c18, if_neg c19, if_pos c20] at h
+    cases hbr : e.breaks with
+    | nil => simp [hbr] at h
+    | cons b r => simp only [hbr] at h; simp only [Except.ok.injEq] at h; subst h; exact app_bytes hb (by intro x hx; simp only [List.mem_cons, List.mem_nil_iff, or_false] at hx; rcases hx with rfl | rfl <;> first | omega | (split <;> omega))
+  by_cases c21 : ev.type = mds_LPF
+  · simp only [if_neg c1, if_neg c2, if_neg c3, if_neg c4, if_neg c5, if_neg c6, if_neg c7, if_neg c8, if_neg c9, if_neg c10, if_neg c11, if_neg c12, if_neg c13, if_neg c14, if_neg c15, if_neg c16, if_neg c17, if_neg c18, if_neg c19, if_neg c20, if_pos c21] at h
+    cases hst : e.starts with
+    | nil => simp [hst] at h
+    | cons st sr =>
+      cases hbr : e.breaks with
+      | nil => simp [hst, hbr] at h
+      | cons b br =>
+        simp only [hst, hbr, Except.ok.injEq] at h; subst h
+        apply set_bytes _ _ _ (Nat.mod_lt _ (by decide))
+        have h1 : ∀ x ∈ e.out ++ [0x86] ++ [(st + two64 - ((e.out ++ [0x86]).length + 1)) / 2 % 256], x < 256 :=
+          app_bytes (app_bytes hb (by intro x hx; simp only [List.mem_singleton] at hx; subst hx; decide))
+            (by intro x hx; simp only [List.mem_singleton] at hx; subst hx; omega)
+        split
+        · exact set_bytes h1 _ _ (Nat.mod_lt _ (by decide))
+        · exact h1
+  · simp only [if_neg c1, if_neg c2, if_neg c3, if_neg c4, if_neg c5, if_neg c6, if_neg c7, if_neg c8, if_neg c9, if_neg c10, if_neg c11, if_neg c12, if_neg c13, if_neg c14, if_neg c15, if_neg c16, if_neg c17, if_neg c18, if_neg c19, if_neg c20, if_neg c21, Except.ok.injEq] at h; subst h; exact hb
+
+theorem macroAll_bytes : ∀ (es : List MEv) (e e' : MEnc), (∀ x ∈ e.out, x < 256) → macroAll e es = .ok e' → ∀ x ∈ e'.out, x < 256
+  | [], e, e', hb, h => by simp only [macroAll, Except.ok.injEq] at h; subst h; exact hb
+  | ev :: es, e, e', hb, h => by
+    simp only [macroAll] at h
+    cases h1 : macroEv e ev with
+    | error x => simp [h1] at h
+    | ok e1 => simp only [h1] at h; exact macroAll_bytes es e1 e' (macroEv_bytes hb h1) h
+
+theorem convertMacroTrack_bytes {es : List MEv} {bytes : List Nat} (h : convertMacroTrack es = .ok bytes) : ∀ x ∈ bytes, x < 256 := by
+  unfold convertMacroTrack at h
+  cases h1 : macroAll {} es with
+  | error x => simp [h1] at h
+  | ok e => simp only [h1, Except.ok.injEq] at h; subst h; exact macroAll_bytes es {} e (by simp) h1
+
+
+theorem flatMap_bytes {α} (f : α → List Nat) (hf : ∀ a, ∀ x ∈ f a, x < 256) (l : List α) : ∀ x ∈ l.flatMap f, x < 256 := by
+  intro x hx
+  obtain ⟨a, _, ha⟩ := List.mem_flatMap.mp hx
+  exact hf a x ha
+
+theorem be16b_bytes (n : Nat) : ∀ x ∈ MdsFile.be16b n, x < 256 := by
+  intro x hx
+  simp only [MdsFile.be16b, List.mem_cons, List.mem_nil_iff, or_false] at hx
+  rcases hx with rfl | rfl <;> omega
+
+/-- the header of the exported `seq ` consists of bytes -/
+theorem headerOf_bytes (db vol : Nat) (ids tS sS mS : List Nat) (nD : Nat) : ∀ x ∈ MdsFile.headerOf db vol ids tS sS mS nD, x < 256 := by
+  unfold MdsFile.headerOf
+  refine app_bytes (app_bytes (app_bytes (app_bytes (be16b_bytes db) ?_) ?_) ?_) ?_
+  · intro x hx
+    simp only [List.mem_cons, List.mem_nil_iff, or_false] at hx
+    rcases hx with rfl | rfl <;> omega
+  · apply flatMap_bytes
+    rintro ⟨id, st⟩ x hx
+    refine app_bytes ?_ (be16b_bytes _) x hx
+    intro y hy
+    simp only [List.mem_cons, List.mem_nil_iff, or_false] at hy
+    rcases hy with rfl | rfl <;> omega
+  · apply flatMap_bytes
+    intro st; exact be16b_bytes _
+  · intro x hx
+    rw [List.eq_of_mem_replicate hx]; decide
+
+theorem encodeStreams_mem (enc : List MEv → Except FErr (List Nat)) (base pos : Nat) (es : List (List MEv)) (bs : List (List Nat))
+    (h : encodeStreams enc base pos es = .ok bs) : ∀ s ∈ bs, ∃ e ∈ es, enc e = .ok s := by
+  intro s hs
+  obtain ⟨i, hi, rfl⟩ := List.mem_iff_getElem.mp hs
+  have hl := encodeStreams_length _ _ _ _ _ h
+  exact ⟨es[i]'(by omega), List.getElem_mem _, encodeStreams_get _ _ _ _ _ h i (by omega) hi⟩
+
 end Ctrmml.MdsRead
